@@ -52,16 +52,17 @@ template <int K> struct L { static constexpr auto name = kNames[K];
     static void eval(In<"tsl", TSL<TS<Int>, 2>> tsl, DateTime now, Out<TS<Int>> out) {
         log_eval(K, now); out.set((tsl[0].valid() ? tsl[0].value() : 0) + (tsl[1].valid() ? tsl[1].value() : 0)); } };
 
-struct Stmt { int kind; std::array<int, 3> in; };          // kind 0:U 1:B 2:T 3:L ; inputs are statement ids (0 = the source)
+struct Stmt { int kind; std::array<int, 3> in; };          // kind 0:U 1:B 2:T 3:L 4:P (binary, second input passive(...)) ; inputs are statement ids (0 = the source)
 struct Program { std::vector<Stmt> stmts; std::vector<std::pair<int, int>> rank; };   // rank: (node, depends_on) with depends_on > node
 
 int arity(int kind) { return kind == 0 ? 1 : kind == 1 ? 2 : kind == 2 ? 3 : 2; }
+constexpr int KINDS = 5;
 
 std::string show(const Program &p) {
     std::ostringstream o;
     for (std::size_t i = 0; i < p.stmts.size(); ++i) {
         const auto &s = p.stmts[i];
-        o << "s" << (i + 1) << "=" << "UBTL"[s.kind] << "(";
+        o << "s" << (i + 1) << "=" << "UBTLP"[s.kind] << "(";
         for (int a = 0; a < arity(s.kind); ++a) o << (a ? "," : "") << "s" << s.in[a];
         o << ") ";
     }
@@ -74,6 +75,7 @@ template <int K> Port<TS<Int>> make(Wiring &w, const Stmt &s, const std::vector<
         case 0: return wire<U<K>>(w, ports[s.in[0]]);
         case 1: return wire<B<K>>(w, ports[s.in[0]], ports[s.in[1]]);
         case 2: return wire<T<K>>(w, ports[s.in[0]], ports[s.in[1]], ports[s.in[2]]);
+        case 4: return wire<B<K>>(w, ports[s.in[0]], passive(ports[s.in[1]]));     // a passive input is still READ: its producer must come first
         default: return wire<L<K>>(w, {ports[s.in[0]], ports[s.in[1]]});
     }
 }
@@ -179,7 +181,7 @@ bool enumerate(Program &p, int n, std::size_t i, bool run_all) {
         return true;
     }
     const int avail = (int)i + 1;     // statements 0..i are available as inputs
-    for (int kind = 0; kind < 4; ++kind) {
+    for (int kind = 0; kind < KINDS; ++kind) {
         const int ar = arity(kind);
         int total = 1; for (int a = 0; a < ar; ++a) total *= avail;
         for (int code = 0; code < total; ++code) {
@@ -210,7 +212,7 @@ int main(int argc, char **argv) {
         for (long it = 0; it < sample && ok; ++it) {
             Program p;
             for (int i = 0; i < n; ++i) {
-                Stmt s{(int)(rng() % 4), {0, 0, 0}};
+                Stmt s{(int)(rng() % KINDS), {0, 0, 0}};
                 for (int a = 0; a < 3; ++a) s.in[a] = (int)(rng() % (i + 1));
                 p.stmts.push_back(s);
             }
